@@ -2,9 +2,12 @@ package rules
 
 import (
 	"fmt"
+	"go/token"
 	"strings"
 
 	"adgverif/an"
+
+	"golang.org/x/tools/go/ssa"
 )
 
 func init() {
@@ -20,12 +23,11 @@ func init() {
 			"is called and the request information is not published to the context; on the other edge the request " +
 			"proceeds to rate limiting. The single exception is the FORMERR answer for a malformed ECS option, which " +
 			"C05 demands and which is written before any access decision.",
-		NotCovered: "what the urlfilter engines behind IsBlockedHost / blockedHostsEng match; that metrics and debug " +
-			"logging are the only effects of the opaque calls on the blocked edge beyond the listed sinks (thorough tier " +
-			"adds a call-graph reachability sweep).",
+		NotCovered: "what the urlfilter engines behind IsBlockedHost / blockedHostsEng match; effects inside third-party libraries reached from the access decision.",
 		Rules: map[string]string{
 			"C10-R1": "decision tables of isBlockedByNets, matchASNs, IsBlocked, isBlockedByAccess",
 			"C10-R2": "Wrap closure: location stored before the decision; blocked edge silent; other edge proceeds",
+			"C10-R3": "call-graph reachability: the access decision itself reaches no answering/resolving/logging/billing/caching sink",
 		},
 	}})
 }
@@ -255,6 +257,37 @@ func runC10(c *an.Ctx) {
 			return fmt.Sprintf("an unblocked request to proceed to rate limiting; got %v", sinkCalls)
 		},
 	})
+	// ---- R3: nothing that leaves a trace is reachable from the access decision
+	c.Floor("C10-R3", 1)
+	if root := c.Fn("dnssvc/internal/ratelimitmw.(*Middleware).isBlockedByAccess"); root == nil {
+		c.Und("C10-R3", "isBlockedByAccess reachability", token.NoPos, "anchor not found")
+	} else {
+		reach := c.ReachableFrom([]*ssa.Function{root}, nil)
+		sinkSuffix := []string{"(querylog.Interface).Write", "(billstat.Recorder).Record", "(rulestat.Interface).Collect", "(dnsdb.Interface).Record",
+			"(filter.Storage).ForConfig", "(dnsserver/forward.Upstream).Exchange", "(dnsserver.ResponseWriter).WriteMsg", "(dnsserver.Handler).ServeDNS"}
+		var hits []string
+		n := 0
+		for fn := range reach {
+			n++
+			for _, call := range an.Calls(fn) {
+				name := an.Short(an.CalleeName(call))
+				for _, sfx := range sinkSuffix {
+					if name == sfx {
+						hits = append(hits, an.FnKey(fn)+" calls "+name+" ("+c.Pos(call.Pos())+")")
+					}
+				}
+				if strings.HasSuffix(name, ".SetWithExpire") || (strings.HasPrefix(name, "(agdcache.Interface") && strings.HasSuffix(name, ".Set")) {
+					hits = append(hits, an.FnKey(fn)+" stores into a cache ("+c.Pos(call.Pos())+")")
+				}
+			}
+		}
+		if len(hits) > 0 {
+			c.Bad("C10-R3", "isBlockedByAccess reachability", root.Pos(), "the access decision can reach a stage that answers, resolves, filters, caches, logs or bills: %s", strings.Join(hits, "; "))
+		} else {
+			c.Ok("C10-R3", "isBlockedByAccess reachability", root.Pos(), "%d repository functions reachable from the access decision (static calls, closures, class-hierarchy-resolved interface calls); none calls a response writer, handler, upstream, filter storage, cache store, query log, billing, rule statistics or DNSDB", n)
+		}
+	}
+
 	c.Except("C10-R2", "ratelimitmw.(*Middleware).processLocationErr",
 		"a malformed ECS option is answered with FORMERR before any access decision (C05 demands it)")
 }
